@@ -213,3 +213,51 @@ def onmatch_once(named: bool, k: int) -> Tuple[List[str], int, int]:
     if named and not all(isinstance(x, tuple) and x[0] == "audit" for x in pr.lines):
         out.append("not sent to the named printer")
     return ([x for x in out if x.startswith("m ")], len([x for x in out if x == "o"]), len([x for x in out if x == "om"]))
+
+
+# ------------------------------------------------------------------ O4 every reference kind in a run
+KINDS_TEXT = 'print("v=$.variables.p, k=$.variables.d.k; i=$.variables.st.1! n=$.variables.st.length? h=$.headers.b, x=$.headers.1; m=$.metadata.note, l=$.csvpath.line_number; e")'
+
+
+CELLS = ["a!", "Z", "9-", "_"]
+
+
+def kinds_oracle(v, w, c1, c2):
+    out = []
+    for ln, cell in ((1, CELLS[c1]), (2, CELLS[c2])):
+        out.append("v=%s, k=%s; i=%s! n=2? h=%s, x=%s; m=hello, l=%d; e" % (v, w, w, cell, cell, ln))
+    return out
+
+
+@ob(
+    "C16",
+    "O4-reference-kinds",
+    pre=["{VLO} <= v <= {VHI} and 0 <= w <= {VHI}", "0 <= c1 < 4 and 0 <= c2 < 4"],
+    post="_ == kinds_oracle(v, w, c1, c2)",
+    bound="one print string with every local reference kind ($.variables.x, .x.key, .stack.index, .stack.length, $.headers.name, "
+    "$.headers.index, $.metadata.key, $.csvpath.line_number) separated by literal text, executed on 2 data lines; variable values "
+    "symbolic ints VLO..VHI, the referenced cell of each line picked by a symbolic index from 4 texts (symbolic cell strings cost 128 000 "
+    "solver queries without finishing: measured, abandoned): every "
+    "entry carries the values current on its line and every other character unchanged",
+    outside="remote references ($name...); cells with white space (header values are not trimmed by print)",
+    encodes=ENC + ["csvpath/matching/functions/print/printf.py:Print._decide_match", "csvpath/matching/util/runtime_data_collector.py:RuntimeDataCollector.collect"],
+    tiers={"quick": {"timeout": 900, "K": {"VLO": -1, "VHI": 1}, "shards": product(c1=[0, 1, 2, 3])},
+           "thorough": {"timeout": 3000, "K": {"VLO": -2, "VHI": 2}, "shards": product(c1=[0, 1, 2, 3])}},
+)
+def reference_kinds(v: int, w: int, c1: int, c2: int) -> List[str]:
+    p, pr = fresh('~ note: hello ~ $SYM[1*][ %s ]' % KINDS_TEXT, [["a", "b"], ["1", "x"], ["2", "y"]])
+    from vp.kit import StubReader
+
+    StubReader.RECORDS = [["a", "b"], ["1", CELLS[c1]], ["2", CELLS[c2]]]
+    p.variables["p"] = v
+    p.variables["d"] = {"k": w}
+    p.variables["st"] = [v, w]
+    p.fast_forward()
+    return list(pr.lines)
+
+
+CELLCH = "aZ9_-!"
+
+
+def cell_ok(c) -> bool:
+    return 1 <= len(c) <= 2 and all(ch in CELLCH for ch in c)
